@@ -386,6 +386,38 @@ def project_statements(sl, keep_re, name=None):
     return s
 
 
+def fragment_condition(block_sl, which=0, name=None):
+    """Expression fragment: the parenthesised condition of the `which`-th compound statement (if/while) directly inside
+    the given block slice (a braced block, e.g. a loop body).  Structural, so the condition's text may change freely."""
+    t = block_sl.text.strip()
+    if not t.startswith('{'):
+        raise Undecided("fragment_condition(%s): not a braced block" % block_sl.name)
+    inner = t[1:match_close(t, 0)]
+    comps = [it for it in _split_items(inner) if it[0] == 'compound' and re.match(r'\s*(if|while)\b', strip_comments(it[1]).strip())]
+    if which >= len(comps):
+        raise Undecided("fragment_condition(%s): no compound statement #%d with a condition" % (block_sl.name, which))
+    hdr = comps[which][1]
+    p = hdr.find('(')
+    q = match_close(hdr, p)
+    return Slice(name or block_sl.name + ":condition", block_sl.rel, hdr[p + 1:q], block_sl.line, kind="expression-fragment")
+
+
+def scalar_local_decls(func_sl, before_re):
+    """Top-level scalar local declarations with an initialiser that precede the (unique) match of before_re in the function
+    body, verbatim, in order.  Used to close an expression/loop-body fragment under the scalar locals it may reference."""
+    header, body = body_of(func_sl.text)
+    ms = list(re.finditer(before_re, body))
+    if len(ms) != 1:
+        raise Undecided("scalar_local_decls(%s): anchor matched %d times" % (func_sl.name, len(ms)))
+    out = []
+    for it in _split_items(body[:ms[0].start()]):
+        if it[0] == 'simple':
+            t = strip_comments(it[1]).strip()
+            if re.match(r'^(static\s+)?(const\s+)?(double|float|int|unsigned(\s+int)?|size_t|bool)\s+\w+\s*=[^;]*;$', t, re.S):
+                out.append(t)
+    return out
+
+
 def subst(sl, rules):
     """Apply must-fire substitutions: rules = [(regex, replacement, expected_count)].
     A different hit count => Undecided.  Returns the new text; logs into the slice."""
